@@ -134,9 +134,18 @@ class FcdWorld(au.CutWorld):
         raise AnalysisError("slice with %s" % r.ty)
 
     def new_buf(self, st, content):
+        if isinstance(content, Str) and content.tag == ("lit", ""):
+            return Opq("buf", ("empty",))  # String::new / with_capacity: the prefix must be appended first
         if not (isinstance(content, Str) and content.tag == ("prefix",)):
             raise DisciplineError("the output buffer is started from %r, not from the unchanged prefix s[..pos]" % (content,))
         return Opq("buf", ("prefix",))
+
+    def buf_push_str(self, m, st, bufref, content):
+        b = m.load(st, bufref.loc) if isinstance(bufref, Ref) else bufref
+        if isinstance(b, Opq) and b.kind == "buf" and b.data == ("empty",) and isinstance(content, Str) and content.tag == ("prefix",) and isinstance(bufref, Ref):
+            m.store(st, bufref.loc, Opq("buf", ("prefix",)))
+            return ip.UNIT
+        raise DisciplineError("push_str(%r) into %r: only the unchanged prefix may be copied wholesale, and first" % (content, b))
 
     def buf_content(self, st, buf):
         return Str(("bufcontent",))
@@ -159,6 +168,8 @@ class FcdWorld(au.CutWorld):
         b = m.load(st, bufref.loc) if isinstance(bufref, Ref) else bufref
         if not (isinstance(b, Opq) and b.kind == "buf"):
             raise AnalysisError("push into %r" % (b,))
+        if b.data == ("empty",):
+            raise DisciplineError("a character is pushed before the unchanged prefix s[..pos] was copied")
         d = self.describe_char(chv)
         st.emit(("push",) + d)
         if getattr(self, "track_last", False):
